@@ -210,8 +210,10 @@ CHANGE = {
 }
 
 
-def first_variants(tok):
-    return [v for v in arg_variants(tok) if v[0] in ("base", "valid", "allvalid", "dk-unknown", "dk-param-valid")]
+def first_variants(tok, quick=False):
+    """Init args of the first source.  Quick tier: one single-parameter representative (all parameters at once are
+    in "allvalid"); thorough: every parameter on its own as well."""
+    return [v for v in (trimmed(arg_variants(tok)) if quick else arg_variants(tok)) if v[0] in ("base", "valid", "allvalid", "dk-unknown", "dk-param-valid")]
 
 
 def second_variants(tok, quick, good):
@@ -226,7 +228,7 @@ def pairs(quick):
 def gen_change(quick):
     for t, (good, bad) in CHANGE.items():
         for tok1 in good:
-            for l1, a1, k1 in first_variants(tok1):
+            for l1, a1, k1 in first_variants(tok1, quick):
                 if k1 and t != "Kw":
                     continue
                 for tok2 in good + bad:
@@ -355,7 +357,10 @@ def gen_holder_change(quick):
     for t in ("HoldOne", "HoldOpt", "HoldUnion"):
         for s1 in firsts:
             for s2 in seconds + ([None] if t == "HoldOpt" else []):
-                for (c1, f1), (c2, f2) in itertools.product(first_forms, second_forms):
+                # quick tier: the full notation grid for the plain class-typed parameter; for the Optional / Union
+                # wrappers (same nested code path) the second source only as --x.inner... options and as a config
+                seconds2 = second_forms if not quick or t == "HoldOne" else [("dot", "F"), ("cfg", "F")]
+                for (c1, f1), (c2, f2) in itertools.product(first_forms, seconds2):
                     tok2 = t if f2 in ("E", "S") else None
                     yield case(t, [[c1, f1, spec_of(t, "path", {"inner": s1, "n": 2})], [c2, f2, spec_of(tok2, "path", {"inner": s2})]])
                 for st in ("grp",):
@@ -440,6 +445,155 @@ def gen_kwargs(quick):
                                 yield case("Kw", two + [[c3, f3, spec_of(None, "path", a3)]])
 
 
+# -------------------------------------------------------------------------------------------------
+# H: sibling class-typed positions whose names are prefix-related (inner / inner2), declared in both orders, as
+#    parameters of a nested class, of a class group and as separate top-level arguments; each sibling's class is
+#    changed / extended / left alone by a later source.  Oracle: every position is judged on its own.
+
+PAIR_FIRSTS = [spec_of("SubAdd", "path", {"a": 3, "b": True}), spec_of("SubReq", "path", {"r": 3}), spec_of("Base", "path", {"s": "w"})]
+PAIR_SECONDS = [None, spec_of("SubSub", "name"), spec_of("Base"), spec_of(None, "path", {"b": False}), spec_of("SubOver", "path", {"c": 5}), spec_of(None, "path", {"a": 2})]
+ABSENT = None
+
+
+def gen_siblings(quick):
+    firsts = PAIR_FIRSTS[:2] if quick else PAIR_FIRSTS
+    seconds = [PAIR_SECONDS[0], PAIR_SECONDS[2], PAIR_SECONDS[3]] if quick else PAIR_SECONDS  # quick: absent / class change / an init arg that only one of the first classes has, without class_path
+    nested_pairs = [(("cfg", "E"), ("cfg", "F")), (("cfg", "E"), ("dot", "F")), (("default", "E"), ("cfg", "E"))]
+    if not quick:
+        nested_pairs += [(("cfg", "E"), ("cfg", "E")), (("dot", "S"), ("json", "F")), (("json", "E"), ("cfg", "I")), (("dot", "E"), ("dot", "S"))]
+    flat_pairs = {"grp": [(("cfg", "F"), ("cfg", "F"))], "top": [(("cfg", "F"), ("cfg", "F")), (("cfg", "F"), ("dot", "F"))]}
+    if not quick:
+        flat_pairs = {st: [(("cfg", "F"), ("cfg", "F")), (("cfg", "F"), ("dot", "F")), (("dot", "F"), ("cfg", "F"))] for st in flat_pairs}
+    for t in ("HoldPair", "HoldPairR"):
+        for f1, f2 in itertools.product(firsts, repeat=2):
+            a1 = {"inner": f1, "inner2": f2}
+            for s1, s2 in itertools.product(seconds, repeat=2):
+                a2 = {k: v for k, v in (("inner", s1), ("inner2", s2)) if v is not ABSENT}
+                if not a2:
+                    continue
+                for (c1, g1), (c2, g2) in nested_pairs:
+                    yield case(t, [[c1, g1, spec_of(t, "path", a1)], [c2, g2, spec_of(t if g2 in ("E", "S") else None, "path", a2)]])
+                for st, prs in flat_pairs.items():
+                    for (c1, g1), (c2, g2) in prs:
+                        yield case(t, [[c1, g1, spec_of(None, "path", a1)], [c2, g2, spec_of(None, "path", a2)]], st)
+                # the order in which the siblings are WRITTEN in the sources (above: inner first; here: inner2 first)
+                yield {**case(t, [["cfg", "E", spec_of(t, "path", a1)], ["cfg", "F", spec_of(None, "path", a2)]]), "rev": True}
+                if not quick:
+                    yield {**case(t, [["cfg", "E", spec_of(t, "path", a1)], ["dot", "F", spec_of(None, "path", a2)]]), "rev": True}
+                    for st in ("grp", "top"):
+                        yield {**case(t, [["cfg", "F", spec_of(None, "path", a1)], ["cfg", "F", spec_of(None, "path", a2)]], st), "rev": True}
+        # single source through every style (the shapes themselves)
+        for f1, f2 in itertools.product(firsts, repeat=2):
+            styles = (("arg", [("obj", "E"), ("cfg", "E"), ("dot", "S")] if quick else NAMED_FORMS), ("grp", GROUP_FORMS[1:] if quick else GROUP_FORMS), ("top", GROUP_FORMS))
+            for st, forms in styles:
+                for ch, form in forms:
+                    yield case(t, [[ch, form, spec_of(t if st == "arg" else None, "path", {"inner": f1, "inner2": f2, "n": 2})]], st)
+            yield case(t, [["cfg", "F", spec_of(None, "path", {"inner": f1})]], "top")  # a required sibling missing
+
+
+# -------------------------------------------------------------------------------------------------
+# I: a whole List / Dict of classes given again by a later source (top level and as a parameter of a holder): every
+#    element of the second container is, relative to the class configured at its index / key, one of
+#    own (init arg only that class has, no class_path) | shared (init arg `a`, no class_path) | foreign (init arg of
+#    another class, no class_path) | same (the same class named again) | change (another class named);
+#    plus containers that shrink / grow / start empty, single-key sources (--x.k=<json>) and --x.a=v on the last element.
+
+RC_CLASSES = ["SubAdd", "SubReq", "SubOver"]
+RC_FIRST = {"SubAdd": spec_of("SubAdd", "path", {"a": 3}), "SubReq": spec_of("SubReq", "path", {"r": 3, "a": 4}), "SubOver": spec_of("SubOver", "path", {"a": "w"})}
+RC_OWN = {"SubAdd": {"b": True}, "SubReq": {"r": 5}, "SubOver": {"c": 5}}
+RC_SHARED = {"SubAdd": {"a": 7}, "SubReq": {"a": 7}, "SubOver": {"a": "v"}}
+RC_KINDS = ["own", "shared", "foreign", "same", "change"]
+RC_KEYS = ["k", "k2", "m"]  # one key is a prefix of another
+
+
+def rc_second(cls, kind):
+    if kind == "own":
+        return spec_of(None, "path", RC_OWN[cls])
+    if kind == "shared":
+        return spec_of(None, "path", RC_SHARED[cls])
+    if kind == "foreign":
+        return spec_of(None, "path", RC_OWN[RC_CLASSES[(RC_CLASSES.index(cls) + 1) % 3]])
+    if kind == "same":
+        return spec_of(cls)
+    if kind == "change":
+        return spec_of("SubSub", "name")
+    raise AssertionError(kind)
+
+
+def rc_firsts(quick, n):
+    """Class sequences of the first container: every class at every position (quick: rotations; else permutations)."""
+    if quick:
+        return [tuple(RC_CLASSES[(r + i) % 3] for i in range(n)) for r in range(3)]
+    return list(itertools.permutations(RC_CLASSES, n))
+
+
+def rc_histories(quick):
+    """(classes of the first container, [second element specs], shape)"""
+    for n in (1, 2, 3):
+        for classes in rc_firsts(quick, n):
+            if n == 1 or not quick:
+                combos = list(itertools.product(RC_KINDS, repeat=n))
+            else:  # all "own", every single-position mutation, every uniform assignment
+                combos = [("own",) * n] + [tuple(k if i == pos else "own" for i in range(n)) for pos in range(n) for k in RC_KINDS[1:]] + [(k,) * n for k in RC_KINDS[1:]]
+            for kinds in combos:
+                yield classes, [rc_second(c, k) for c, k in zip(classes, kinds)], "same-shape"
+            # the container shrinks / grows: no class_path (shared arg) or the class named, in every element
+            for kind in ("shared", "same"):
+                full = [rc_second(c, kind) for c in classes]
+                if n > 1:
+                    yield classes, full[:-1], "shrunk-end"
+                    yield classes, full[1:], "shrunk-front"
+                yield classes, full + [spec_of(None, "path", {"a": 7}) if kind == "shared" else spec_of("SubAdd")], "grown"
+    for extra in (spec_of(None, "path", {"a": 7}), spec_of("SubAdd", "path", {"b": True})):
+        yield (), [extra], "from-empty"
+    yield ("SubAdd",), [], "to-empty"
+
+
+def rc_container(t, specs, keys=None):
+    if t in ("ListBase", "HoldList"):
+        return {"list": list(specs)}
+    keys = keys or RC_KEYS
+    return {"dict": dict(zip(keys, specs))}
+
+
+def gen_recontainer(quick):
+    top_pairs = [(("cfg", "E"), ("cfg", "E")), (("cfg", "E"), ("json", "F")), (("default", "E"), ("json", "E"))]
+    if not quick:
+        top_pairs += [(("json", "E"), ("json", "E")), (("default", "E"), ("obj", "E")), (("cfg", "E"), ("cfg", "F"))]
+    nested_pairs = [(("cfg", "E"), ("cfg", "I")), (("cfg", "E"), ("dot", "F"))]
+    if not quick:
+        nested_pairs += [(("cfg", "E"), ("json", "E")), (("default", "E"), ("json", "I")), (("dot", "S"), ("dot", "I"))]
+    for classes, second, shape in rc_histories(quick):
+        first = [RC_FIRST[c] for c in classes]
+        resized = shape != "same-shape"
+        for t in ("ListBase", "DictBase"):
+            keys2 = RC_KEYS[1:] if t == "DictBase" and shape == "shrunk-front" else None
+            for (c1, f1), (c2, f2) in top_pairs[1:2] if quick and resized else top_pairs:
+                if c1 == "default" and not first:
+                    continue
+                yield case(t, [[c1, f1, rc_container(t, first)], [c2, f2, rc_container(t, second, keys2)]])
+        for t, pname in (("HoldList", "elems"), ("HoldDict", "table")):
+            keys2 = RC_KEYS[1:] if t == "HoldDict" and shape == "shrunk-front" else None
+            for (c1, f1), (c2, f2) in nested_pairs[:1] if quick and (resized or len(first) == 1) else nested_pairs:
+                tok2 = t if f2 in ("E", "S") else None
+                yield case(t, [[c1, f1, spec_of(t, "path", {pname: rc_container(t, first), "n": 2})], [c2, f2, spec_of(tok2, "path", {pname: rc_container(t, second, keys2)})]])
+    # one key of an existing dict addressed by --x.<key>=<json> (every key position x kind; a new key)
+    for n in (1, 2, 3):
+        for classes in rc_firsts(quick, n):
+            first = [RC_FIRST[c] for c in classes]
+            targets = [(RC_KEYS[i], rc_second(c, kind)) for i, c in enumerate(classes) for kind in RC_KINDS]
+            targets += [("zz", spec_of(None, "path", {"a": 7})), ("zz", spec_of("SubAdd", "path", {"b": True}))]
+            for key, s in targets:
+                forms = ["E"] if s.get("c") else ["I", "F"]
+                for c1, f1 in (("cfg", "E"),) if quick else (("cfg", "E"), ("default", "E"), ("json", "E")):
+                    for f in forms:
+                        yield case("DictBase", [[c1, f1, rc_container("DictBase", first)], ["dot", f, {"key": [key, s]}]])
+            # --x.<param>=v after a whole list: addresses the last element
+            for kind in ("own", "shared", "foreign"):
+                for f in ("F", "I"):
+                    yield case("ListBase", [["cfg", "E", {"list": first}], ["dot", f, {"last": rc_second(classes[-1], kind)}]])
+
+
 FAMILIES = [
     ("single", gen_single),
     ("classless", gen_classless),
@@ -450,4 +604,6 @@ FAMILIES = [
     ("containers", gen_containers),
     ("styles", gen_styles),
     ("kwargs", gen_kwargs),
+    ("siblings", gen_siblings),
+    ("recontainer", gen_recontainer),
 ]
